@@ -414,6 +414,30 @@ func (s *snap) pushedCommits(w *gitx.World) map[string]bool {
 	return m
 }
 
+// isAncestor reports whether commit a is a proper ancestor of commit d.
+func (s *snap) isAncestor(a, d string) bool {
+	seen := map[string]bool{}
+	var q []string
+	if c := s.commits[d]; c != nil {
+		q = append(q, c.parents...)
+	}
+	for len(q) > 0 {
+		id := q[0]
+		q = q[1:]
+		if id == a {
+			return true
+		}
+		if seen[id] {
+			continue
+		}
+		seen[id] = true
+		if c := s.commits[id]; c != nil {
+			q = append(q, c.parents...)
+		}
+	}
+	return false
+}
+
 func (s *snap) bareRepo() bool { return !strings.HasSuffix(s.gitdir, "/.git") }
 
 // ---------------------------------------------------------------------------------------------
